@@ -283,17 +283,38 @@ i.e. when it is ready: all three inputs hold data -/
 def sliceRaises (f : SliceFn) (ready : Bool) (sN bN cN : Bool) : Bool :=
   ready && !(sliceNode f (noneFlag sN) (noneFlag bN) (noneFlag cN)).isOk
 
+/-- `_node_injection` when the constructor of the new node raises (its auto-run failed, `raised`): `Node.__init__`
+takes the half-built node out of the parent again and the exception leaves the expression — only the node id is
+used up.  A node that is found is not constructed, so nothing can raise. -/
+def injectX (L : Expr → String) (st : St) (parent : Option Nat) (e : Expr) (raised : Bool) : St × Nat :=
+  let r := injectL L st parent e
+  if raised && r.2 == st.next then ({ st with next := st.next + 1 }, st.next) else r
+
 /-- `x[a:b:c]` with a channel-like component, as executed: when the new `Slice` node raises while auto-running,
-the exception leaves `__getitem__` before `GetItem` is injected (the `Slice` node stays behind as a child) -/
+the exception leaves `__getitem__` before `GetItem` is injected (and the `Slice` node is not kept as a child) -/
 def getitemSliceRun (H : Key → String) (p : Printer) (f : SliceFn) (st : St) (parent : Option Nat) (owner : Nat)
     (slabel : String) (start stop step : Operand) (chanOf : Nat → Nat) (ready : Bool) (sN bN cN : Bool) :
     St × Nat × Option Nat :=
   let es : Expr := { owner := owner, slabel := slabel, cls := "Slice", ops := [start, stop, step] }
   let r1 := inject H p st parent es
-  if r1.2 == st.next && sliceRaises f ready sN bN cN then (r1.1, r1.2, none)
+  if r1.2 == st.next && sliceRaises f ready sN bN cN then ({ st with next := st.next + 1 }, st.next, none)
   else
     let item := Operand.chan (chanOf r1.2) (label H p es ++ "__slice")
     let r2 := inject H p r1.1 parent { owner := owner, slabel := slabel, cls := "GetItem", ops := [item] }
+    (r2.1, r1.2, some r2.2)
+
+/-- the same when the new `GetItem` node may raise while auto-running (`gRaised`, e.g. the owner's value cannot be
+sliced): the `Slice` node stays, the `GetItem` node is not kept -/
+def getitemSliceX (H : Key → String) (p : Printer) (f : SliceFn) (st : St) (parent : Option Nat) (owner : Nat)
+    (slabel : String) (start stop step : Operand) (chanOf : Nat → Nat) (ready : Bool) (sN bN cN : Bool)
+    (gRaised : Bool) : St × Nat × Option Nat :=
+  let es : Expr := { owner := owner, slabel := slabel, cls := "Slice", ops := [start, stop, step] }
+  let r1 := inject H p st parent es
+  if r1.2 == st.next && sliceRaises f ready sN bN cN then ({ st with next := st.next + 1 }, st.next, none)
+  else
+    let item := Operand.chan (chanOf r1.2) (label H p es ++ "__slice")
+    let r2 := injectX (label H p) r1.1 parent { owner := owner, slabel := slabel, cls := "GetItem", ops := [item] }
+      gRaised
     (r2.1, r1.2, some r2.2)
 
 /-- the value of `x[a:b:c]` as the two injected nodes compute it: `GetItem(obj = x, item = Slice(a, b, c))`.
